@@ -1,4 +1,4 @@
-From DV Require Import RefName Refs.
+From DV Require Import RefName Refs PackedFile.
 Require Extraction.
 Require Import ExtrOcamlBasic.
-Extraction "model.ml" check_ref_format git_check_refname_format check_refname rstep disk_init dread getitem names.
+Extraction "model.ml" check_ref_format git_check_refname_format check_refname rstep disk_init dread getitem names write_packed read_packed.
